@@ -783,7 +783,10 @@ pub fn run_l2(scn: &C10Scenario, stats: &mut RunStats) -> Vec<Violation> {
                 let result = exec::catch(|| watcher.verif_batch(events));
                 last_batch_error = exec::take_captured_errors()
                     .into_iter()
-                    .find(|(target, _)| target.contains("file_watcher"))
+                    .find(|(target, message)| {
+                        target.contains("file_watcher")
+                            || !message.starts_with("an error happened while processing")
+                    })
                     .map(|(_, message)| message);
                 fs.set_budget(u64::MAX / 2);
                 let pass_log = fs.log_since(log_start);
@@ -862,7 +865,10 @@ pub fn run_l2(scn: &C10Scenario, stats: &mut RunStats) -> Vec<Violation> {
                     let result = exec::catch(|| watcher.verif_first_run());
                     last_batch_error = exec::take_captured_errors()
                         .into_iter()
-                        .find(|(target, _)| target.contains("file_watcher"))
+                        .find(|(target, message)| {
+                        target.contains("file_watcher")
+                            || !message.starts_with("an error happened while processing")
+                    })
                         .map(|(_, message)| message);
                     fs.set_budget(u64::MAX / 2);
                     let pass_log = fs.log_since(log_start);
